@@ -48,6 +48,9 @@ def run(prog, tier):
     check_no_shared_state(R, prog, P, ['cnfgen.formula'], 120)
     from ._families import borrow as _borrow
     from . import c09 as _c09
+    from . import c17 as _c17, c06 as _c06
+    _borrow(R, P, "CLI", prog, lambda r, p: _c17.check_action_defaults(r, p, _c17.collect_helpers(p)), floor=1)
+    _borrow(R, P, "DIMACS", prog, _c06.check_gates, floor=3)
     _borrow(R, P, "SHUFFLE", prog, lambda r, p: _c09.check_table(r, p, p.func(_c09.MOD, "Shuffle")), floor=1, only=lambda t: "declares" in t or "N variables" in t or "update_variable_number" in t)
     return R
 
@@ -772,4 +775,29 @@ def semantic_counts(prog):
     except Unknown as e:
         verdict = (None, "cannot fold: %s" % e)
     out[fa.key] = verdict
+    # BaseCNF.add_clauses_from: a lazily produced batch sees, before each further clause is asked for, the count raised by the previous one
+    fb = ci.methods.get("add_clauses_from")
+    if fb is not None:
+        verdict = (True, "add_clauses_from inserts the clauses in order and, with check=True, raises the count clause by clause")
+        try:
+            for check in (True, False):
+                s_ = types.SimpleNamespace(_numvar=1, _clauses=[])
+                seen = []
+
+                def batch():
+                    yield [2, -3]
+                    seen.append(s_._numvar)
+                    yield [6]
+                    seen.append(s_._numvar)
+                    yield []
+                r = fold(fb, s_, [batch()], {"check": check}, methods=methods)
+                want_seen = [3, 6] if check else [1, 1]
+                if r != "ok" or s_._clauses != [[2, -3], [6], []] or s_._numvar != (6 if check else 1) or seen != want_seen:
+                    verdict = (False, "BaseCNF.add_clauses_from(<generator>, check=%s): clauses %s, final count %s, counts seen by the producer "
+                               "between clauses %s (%s); expected the clauses in order, the count %s and %s in between -- a variable created "
+                               "while the batch streams would otherwise reuse an identifier of an earlier clause"
+                               % (check, s_._clauses, s_._numvar, seen, r, 6 if check else 1, want_seen))
+        except Unknown as e:
+            verdict = (None, "cannot fold: %s" % e)
+        out[fb.key] = verdict
     return out
